@@ -67,7 +67,7 @@ func freshContainer(v ssa.Value, depth int) bool {
 }
 
 func checkC08(c *an.Ctx) {
-	c.Rule("C08.1", "ownership (E4): a store to Task.Env / .Variables / .Dir, or a mutating Set on a container held in those fields, is allowed only on an object or container the function itself allocated (constructor literal, value copy, fresh Merge/With/FromMap result); Task.WithEnv is API and must not be reachable from the scheduler, the config builders or the watcher")
+	c.Rule("C08.1", "ownership (E4): a store to Task.Env / .Variables / .Dir (or to the same fields of an ExecutionContext), or a mutating Set on a container held in those fields, is allowed only on an object or container the function itself allocated (constructor literal, value copy, fresh Merge/With/FromMap result); Task.WithEnv is API and must not be reachable from the scheduler, the config builders or the watcher")
 	c.Rule("C08.2", "pure combinators (E4): Variables.Merge and .With write only to a container allocated in the same activation; in the functions under them no append, element write or map write targets a slice or map that can share backing storage with an operand (loaded from an operand's field, re-sliced without a capacity limit, or parked in the result's field)")
 	c.Rule("C08.3", "layering (E5/E2): the runner caller of the scheduler runs a per-stage copy of the task whose Env is [Task.Env < Stage.Env], Variables [Task.Variables < Stage.Variables] and Dir = Stage.Dir when non-empty; Runner.Run receives that copy")
 	c.NotDecided = append(c.NotDecided, "sharing introduced by a caller handing one *Stage to two graphs", "containers reachable through other aliases than the three task fields")
@@ -93,6 +93,44 @@ func checkC08(c *an.Ctx) {
 					return
 				}
 				fa, ok := x.Addr.(*ssa.FieldAddr)
+				// a named execution context is one object shared by every task that uses it: the same ownership
+				// rule holds for its env, variables and dir
+				if ok && an.TypeIs(fa.X.Type(), "pkg/runner", "ExecutionContext") && fields[an.AccessPath(fa).LastField()] {
+					n++
+					name := an.AccessPath(fa).LastField()
+					key := an.Short(fn) + ":write(ExecutionContext." + name + ")"
+					fresh, _ := an.FreshBase(fa.X)
+					if !fresh {
+						// an object this function has just obtained from a constructor
+						srcs := an.ResolveAll(fa.X)
+						fresh = len(srcs) > 0
+						for _, src := range srcs {
+							call, isCall := src.(*ssa.Call)
+							if !isCall || call.Parent() != fn {
+								fresh = false
+								continue
+							}
+							callee := call.Call.StaticCallee()
+							if callee == nil || callee.Blocks == nil || !an.InModule(callee) {
+								fresh = false
+								continue
+							}
+							for _, ret := range an.Returns(callee) {
+								for _, r := range an.ResolveAll(an.RetVal(ret, 0)) {
+									if al, isAlloc := r.(*ssa.Alloc); !isAlloc || al.Parent() != callee {
+										fresh = false
+									}
+								}
+							}
+						}
+					}
+					if fresh {
+						c.OK(rule1, key, x.Pos(), "written on a context object allocated here")
+					} else {
+						c.Bad(rule1, key, x.Pos(), "%s writes ExecutionContext.%s through %s, a context object it did not allocate: a named context is shared by all tasks that use it, so what one task's run puts there is seen by every overlapping or later run", an.Short(fn), name, an.Prov(fa.X))
+					}
+					return
+				}
 				if !ok || !an.TypeIs(fa.X.Type(), "pkg/task", "Task") {
 					return
 				}
